@@ -26,7 +26,7 @@ TABLE = {
   ('C02_canon_merkle', 'HashP', 'shash_canon_merkle'), ('C02_merkleize_pad', 'HashP', 'merkleize_pad'),
   ('C02_depth', 'HashP', 'depth_is_chunk_depth'), ('C02_tree_hash', 'HashP', 'tree_hash_exact'),
   ('C02_root', 'HashP', 'root_is_ssz_hinv'), ('C02_root_run', 'HashP', 'root_is_ssz_run'),
-  ('C02_root_gok', 'CollObsP', 'coll_root_spec'), ('C02_hash_refines', 'RefineB', 'refines_OHash'), ('C02_run_refines', 'Refine', 'run_refines'),
+  ('C02_root_gok', 'CollObsP', 'coll_root_spec'), ('C02_hash_refines', 'RefineB', 'refines_OHash'), ('C02_run_refines', 'Refine', 'run_refines'), ('C02_root_after_abandoned_hashing', 'FaultP', 'abandoned_hashing_is_harmless'),
  ],
  'C03': [
   ('C03_hash_writes_only_truth', 'HashP', 'tree_hash_exact'), ('C03_other_trees', 'HashP', 'mvalid_changes'),
@@ -37,7 +37,7 @@ TABLE = {
   ('C03_intra_gok', 'CollObsP', 'coll_intra_spec_gok'),
   ('C03_inv', 'Refine', 'step_refines'),
   ('C03_hash_invisible', 'InvisibleP', 'hash_invisible'), ('C03_silent_ops_invisible', 'InvisibleP', 'silent_ops_invisible'),
-  ('C03_invisible_example', 'InvisibleP', 'invisible_u64'),
+  ('C03_invisible_example', 'InvisibleP', 'invisible_u64'), ('C03_abandoned_hashing_is_harmless', 'FaultP', 'abandoned_hashing_is_harmless'),
  ],
  'C04': [
   ('C04_spec_frame', 'FinalP', 'spec_frame'), ('C04_versions_isolated', 'FinalP', 'versions_isolated'), ('C04_versions_isolated_obs', 'FinalP', 'versions_isolated_obs'),
@@ -135,7 +135,7 @@ TABLE = {
   ('C16_deterministic', 'ConcP', 'tree_hash_pool_deterministic'), ('C16_final_table', 'ConcP', 'tree_hash_pool_final_table'),
   ('C16_mvalid_always', 'ConcP', 'tree_hash_pool_mvalid'), ('C16_private_ops_demonic', 'RebaseP', 'coll_rebase_on_dem'), ('C16_par_hash_refines', 'RefineB', 'refines_OParHash'), ('C16_par_mix_refines', 'RefineB', 'refines_OParMix'), ('C16_run_final', 'ConcP', 'tree_hash_run_final'),
   ('C16_nested_lawful', 'NestedP', 'ek_nlW_wf'), ('C16_nested_root_injective', 'NestedP', 'ek_nlW_troot_inj'),
-  ('C16_nested_par_hash', 'NestedP', 'par_hash_nl'), ('C16_nested_par_mix', 'NestedP', 'par_mix_nl'), ('C16_nested_history', 'NestedP', 'history_nl'),
+  ('C16_nested_par_hash', 'NestedP', 'par_hash_nl'), ('C16_nested_par_mix', 'NestedP', 'par_mix_nl'), ('C16_nested_history', 'NestedP', 'history_nl'), ('C16_abandoned_hashing_is_harmless', 'FaultP', 'abandoned_hashing_is_harmless'),
  ],
  'C17': [
   ('C17_incremental', 'FinalP', 'incremental_canon'), ('C17_inc_flag_true', 'FinalP', 'finish_inc_true'), ('C17_build_eq_incremental', 'FinalP', 'build_eq_incremental'),
